@@ -182,7 +182,7 @@ def install():
         if fs is not None and getattr(fs, "_rec_live", False):
             attached = fs.heads.get(self.uid) is self
             REC.prims.append(["setPos", fs.uid, self.uid, p, name_at(REC.state, fs, p), attached,
-                              self.position_changed_callback is not None])
+                              self.position_changed_callback is not None, self._position != p])
         REC.depth += 1
         try:
             pos_prop.fset(self, p)
@@ -194,7 +194,7 @@ def install():
         if fs is not None and getattr(fs, "_rec_live", False):
             attached = fs.heads.get(self.uid) is self
             REC.prims.append(["setStatus", fs.uid, self.uid, s.value, name_at(REC.state, fs, self._position), attached,
-                              self.status_changed_callback is not None])
+                              self.status_changed_callback is not None, self._status != s])
         REC.depth += 1
         try:
             st_prop.fset(self, s)
@@ -297,15 +297,15 @@ def group_ops(prims):
                 problems.append(f"add_new_flow_instance with {nheads} heads / first head at {pos}")
             ops.append(["addInst", f, h, nm0])
         elif k == "setPos":
-            _, f, h, pos, nm, attached, cb = p
+            _, f, h, pos, nm, attached, cb, changed = p
             if not attached:
                 problems.append(f"position of a head that is not in flow_state.heads was set ({f},{h})")
-            ops.append(["setPos", f, h, pos, nm])
+            ops.append(["setPos", f, h, pos, nm, changed])
         elif k == "setStatus":
-            _, f, h, st, nm, attached, cb = p
+            _, f, h, st, nm, attached, cb, changed = p
             if not attached:
                 problems.append(f"status of a head that is not in flow_state.heads was set ({f},{h})")
-            ops.append(["setStatus", f, h, st, nm])
+            ops.append(["setStatus", f, h, st, nm, changed])
         elif k == "insertHead":
             _, f, h, nm0, pos, st, existed = p
             if existed or pos != 0 or st != "active":
